@@ -577,7 +577,7 @@ def _run(prop, module, ctx: Ctx, t0, ev_path: Path) -> int:
         # infrastructure errors.
         tb = traceback.extract_tb(ex.__traceback__)
         in_code = any(str(REPO) in (fr.filename or "") or "/nuspacesim/" in (fr.filename or "") for fr in tb)
-        if not in_code and not isinstance(ex, (TypeError, AttributeError)):
+        if not in_code and not isinstance(ex, (TypeError, AttributeError, ImportError)):
             if not ctx.violations:
                 raise
             # the property was already seen to fail on the real code for a concrete input: report that; a later stream of the
